@@ -90,4 +90,60 @@ theorem src_offset_local_tz_info_timezone_rs_fn_unix_time_to_unix_leap_time : C1
 theorem src_offset_local_tz_info_timezone_rs_fn_validate : C16_src_offset_local_tz_info_timezone_rs_fn_validate =
     ["&", "self", "->", "Result", "<", "Error", ">", "v1", "self", "v2", "len(", "if", "v1", "==", "0", "return", "Err(", "Error", "TimeZone(", "\"…\"", "v3", "0", "while", "v3", "<", "self", "v4", "len(", "if", "self", "v4", "v3", "v5", ">=", "v1", "return", "Err(", "Error", "TimeZone(", "\"…\"", "if", "v3", "+", "1", "<", "self", "v4", "len(", "&&", "self", "v4", "v3", "v6", ">=", "self", "v4", "v3", "+", "1", "v6", "return", "Err(", "Error", "TimeZone(", "\"…\"", "v3", "+=", "1", "if!(", "self", "v7", "is_empty(", "||", "self", "v7", "0", "v6", ">=", "0", "&&", "self", "v7", "0", "v8", "saturating_abs(", "==", "1", "return", "Err(", "Error", "TimeZone(", "\"…\"", "v9", "SECONDS_PER_28_DAYS", "-", "1", "v10", "0", "while", "v10", "<", "self", "v7", "len(", "if", "v10", "+", "1", "<", "self", "v7", "len(", "v11", "&", "self", "v7", "v10", "v12", "&", "self", "v7", "v10", "+", "1", "v13", "v12", "v6", "saturating_sub(", "v11", "v6", "v14", "v12", "v8", "saturating_sub(", "v11", "v8", "saturating_abs(", "if!(", "v13", ">=", "v9", "&&", "v14", "==", "1", "return", "Err(", "Error", "TimeZone(", "\"…\"", "v10", "+=", "1", "let(", "v15", "v16", "match(", "&", "self", "v15", "self", "v4", "last(", "Some(", "v17", "Some(", "v18", "=>", "v17", "v18", "v19", "=>", "return", "Ok(", "v20", "&", "self", "v2", "v16", "v5", "v21", "match", "self", "unix_leap_time_to_unix_time(", "v16", "v6", "Ok(", "v21", "=>", "v21", "Err(", "Error", "OutOfRange(", "v22", "=>", "return", "Err(", "Error", "TimeZone(", "v22", "Err(", "v23", "=>", "return", "Err(", "v23", "v24", "match", "v15", "find_local_time_type(", "v21", "Ok(", "v24", "=>", "v24", "Err(", "Error", "OutOfRange(", "v22", "=>", "return", "Err(", "Error", "TimeZone(", "v22", "Err(", "v23", "=>", "return", "Err(", "v23", "v25", "v20", "v26", "==", "v24", "v26", "&&", "v20", "v27", "==", "v24", "v27", "&&", "match(", "&", "v20", "v28", "&", "v24", "v28", "Some(", "v29", "Some(", "v30", "=>", "v29", "equal(", "v30", "None", "None", "=>", "true", "v19", "=>", "false", "if", "!", "v25", "return", "Err(", "Error", "TimeZone(", "\"…\"", "Ok("] := by decide +kernel
 
+/-- callee src/datetime/mod.rs:fn from_naive_utc_and_offset -/
+theorem callee_src_datetime_mod_rs_fn_from_naive_utc_and_offset : C16_callee_src_datetime_mod_rs_fn_from_naive_utc_and_offset =
+    ["v1", "NaiveDateTime", "v2", "Tz", "Offset", "->", "DateTime", "<", "Tz", ">", "DateTime", "v1", "v2"] := by decide +kernel
+
+/-- callee src/naive/datetime/mod.rs:fn and_utc -/
+theorem callee_src_naive_datetime_mod_rs_fn_and_utc : C16_callee_src_naive_datetime_mod_rs_fn_and_utc =
+    ["&", "self", "->", "DateTime", "<", "Utc", ">", "DateTime", "from_naive_utc_and_offset(", "*", "self", "Utc"] := by decide +kernel
+
+/-- callee src/offset/local/tz_info/parser.rs:fn peek -/
+theorem callee_src_offset_local_tz_info_parser_rs_fn_peek : C16_callee_src_offset_local_tz_info_parser_rs_fn_peek =
+    ["&", "self", "->", "Option", "<", "&", "u8", ">", "self", "remaining(", "first("] := by decide +kernel
+
+/-- callee src/offset/local/tz_info/parser.rs:fn read_be_i32 -/
+theorem callee_src_offset_local_tz_info_parser_rs_fn_read_be_i32 : C16_callee_src_offset_local_tz_info_parser_rs_fn_read_be_i32 =
+    ["v1", "&", "u8", "->", "Result", "<", "i32", "Error", ">", "if", "v1", "len(", "!=", "4", "return", "Err(", "Error", "InvalidSlice(", "\"…\"", "v2", "0", "4", "v2", "copy_from_slice(", "v1", "Ok(", "i32", "from_be_bytes(", "v2"] := by decide +kernel
+
+/-- callee src/offset/local/tz_info/parser.rs:fn read_be_i64 -/
+theorem callee_src_offset_local_tz_info_parser_rs_fn_read_be_i64 : C16_callee_src_offset_local_tz_info_parser_rs_fn_read_be_i64 =
+    ["v1", "&", "u8", "->", "Result", "<", "i64", "Error", ">", "if", "v1", "len(", "!=", "8", "return", "Err(", "Error", "InvalidSlice(", "\"…\"", "v2", "0", "8", "v2", "copy_from_slice(", "v1", "Ok(", "i64", "from_be_bytes(", "v2"] := by decide +kernel
+
+/-- callee src/offset/local/tz_info/parser.rs:fn read_be_u32 -/
+theorem callee_src_offset_local_tz_info_parser_rs_fn_read_be_u32 : C16_callee_src_offset_local_tz_info_parser_rs_fn_read_be_u32 =
+    ["&", "self", "->", "Result", "<", "u32", "Error", ">", "v1", "0", "4", "v1", "copy_from_slice(", "self", "read_exact(", "4", "?", "Ok(", "u32", "from_be_bytes(", "v1"] := by decide +kernel
+
+/-- callee src/offset/local/tz_info/parser.rs:fn read_int -/
+theorem callee_src_offset_local_tz_info_parser_rs_fn_read_int : C16_callee_src_offset_local_tz_info_parser_rs_fn_read_int =
+    ["<", "T", "FromStr", "<", "Err", "ParseIntError", ">>", "&", "self", "->", "Result", "<", "T", "Error", ">", "v1", "self", "read_while(", "u8", "v2", "?", "Ok(", "str", "from_utf8(", "v1", "?", "parse(", "?"] := by decide +kernel
+
+/-- callee src/offset/local/tz_info/parser.rs:fn read_optional_tag -/
+theorem callee_src_offset_local_tz_info_parser_rs_fn_read_optional_tag : C16_callee_src_offset_local_tz_info_parser_rs_fn_read_optional_tag =
+    ["&", "self", "v1", "&", "u8", "->", "Result", "<", "bool", "v2", "Error", ">", "if", "self", "v3", "starts_with(", "v1", "self", "read_exact(", "v1", "len(", "?", "Ok(", "true", "else", "Ok(", "false"] := by decide +kernel
+
+/-- callee src/offset/local/tz_info/parser.rs:fn read_tag -/
+theorem callee_src_offset_local_tz_info_parser_rs_fn_read_tag : C16_callee_src_offset_local_tz_info_parser_rs_fn_read_tag =
+    ["&", "self", "v1", "&", "u8", "->", "Result", "<", "v2", "Error", ">", "if", "self", "read_exact(", "v1", "len(", "?", "==", "v1", "Ok(", "else", "Err(", "v2", "Error", "from(", "ErrorKind", "InvalidData"] := by decide +kernel
+
+/-- callee src/offset/local/tz_info/parser.rs:fn read_until -/
+theorem callee_src_offset_local_tz_info_parser_rs_fn_read_until : C16_callee_src_offset_local_tz_info_parser_rs_fn_read_until =
+    ["<", "F", "Fn(", "&", "u8", "->", "bool", ">", "&", "self", "v1", "F", "->", "Result", "<", "&", "u8", "v2", "Error", ">", "match", "self", "v3", "iter(", "position(", "v1", "None", "=>", "self", "read_exact(", "self", "v3", "len(", "Some(", "v4", "=>", "self", "read_exact(", "v4"] := by decide +kernel
+
+/-- callee src/offset/local/tz_info/parser.rs:fn read_while -/
+theorem callee_src_offset_local_tz_info_parser_rs_fn_read_while : C16_callee_src_offset_local_tz_info_parser_rs_fn_read_while =
+    ["<", "F", "Fn(", "&", "u8", "->", "bool", ">", "&", "self", "v1", "F", "->", "Result", "<", "&", "u8", "v2", "Error", ">", "match", "self", "v3", "iter(", "position(", "|", "v4", "|", "!", "f(", "v4", "None", "=>", "self", "read_exact(", "self", "v3", "len(", "Some(", "v5", "=>", "self", "read_exact(", "v5"] := by decide +kernel
+
+/-- callee src/offset/local/tz_info/parser.rs:fn remaining -/
+theorem callee_src_offset_local_tz_info_parser_rs_fn_remaining : C16_callee_src_offset_local_tz_info_parser_rs_fn_remaining =
+    ["&", "self", "->", "&", "u8", "self", "v1"] := by decide +kernel
+
+/-- callee src/offset/local/tz_info/timezone.rs:fn equal -/
+theorem callee_src_offset_local_tz_info_timezone_rs_fn_equal : C16_callee_src_offset_local_tz_info_timezone_rs_fn_equal =
+    ["&", "self", "v1", "&", "Self", "->", "bool", "self", "v2", "==", "v1", "v2"] := by decide +kernel
+
+/-- callee src/offset/local/tz_info/timezone.rs:fn unix_leap_time_to_unix_time -/
+theorem callee_src_offset_local_tz_info_timezone_rs_fn_unix_leap_time_to_unix_time : C16_callee_src_offset_local_tz_info_timezone_rs_fn_unix_leap_time_to_unix_time =
+    ["&", "self", "v1", "i64", "->", "Result", "<", "i64", "Error", ">", "if", "v1", "==", "i64", "MIN", "return", "Err(", "Error", "OutOfRange(", "\"…\"", "v2", "match", "self", "v3", "binary_search_by_key(", "&", "v1", "-", "1", "LeapSecond", "v1", "Ok(", "v4", "=>", "v4", "+", "1", "Err(", "v4", "=>", "v4", "v5", "if", "v2", ">", "0", "self", "v3", "v2", "-", "1", "v5", "else", "0", "match", "v1", "checked_sub(", "v5", "as", "i64", "Some(", "v6", "=>", "Ok(", "v6", "None", "=>", "Err(", "Error", "OutOfRange(", "\"…\""] := by decide +kernel
+
 end Chrono.Pins.C16
